@@ -178,6 +178,10 @@ def emit_enum_decl(d, name="E"):
         else:
             lit = hex(x) if (x > 9 and (x + i) % 2) else str(x)
             vs.append(f"{pre}V{i} = {lit}")
+    if mal == 'deaddup_front':
+        vs.insert(0, f"#[cfg(any())] X0 = {ds[-1]}")
+    if mal == 'deaddup_back':
+        vs.append(f"#[cfg(any())] X0 = {ds[0]}")
     mx = max(ds) if ds else 0
     rep = '#[repr(u64)] ' if mx >= (1 << 31) and mx < (1 << 64) else ('#[repr(u128)] ' if mx >= (1 << 64) else '')
     k = 'const K: isize = 1; ' if mal == 'constref' else ''
@@ -188,6 +192,10 @@ def enum_decl_valid(d):
     size, ds, exh, sep, cfg, mal = d
     if not (size.startswith('u') and size[1:].isdigit()):
         return False
+    if mal in ('deaddup_front', 'deaddup_back'):
+        # a compiled-out variant sharing a live variant's discriminant (mutually exclusive cfgs): a cfg-gated variant,
+        # so only `conditional` may carry it; the live variants must satisfy the rule on their own
+        return exh == 'conditional' and oracle.enum_valid(int(size[1:]), list(ds), exh, True, None)
     return oracle.enum_valid(int(size[1:]), list(ds), exh, cfg is not None, mal)
 
 
@@ -224,6 +232,9 @@ def c10_declarations(tier):
             out.append((f"u{n}", (1, 0, 1), exh, sep, None, None))
             for mal in ('missing', 'nonlit', 'neg', 'constref'):
                 out.append((f"u{n}", (0, 1), exh, sep, None, mal))
+            for mal in ('deaddup_front', 'deaddup_back'):
+                for ds in [(0,), (1, 0), tuple(range(1 << n)), tuple(reversed(range(1 << n))), ((1 << n) - 1,), ((1 << n),)]:
+                    out.append((f"u{n}", ds, exh, sep, None, mal))
     # storage boundaries
     for n in (4, 5, 7, 8, 9, 15, 16, 17, 31, 32, 33, 63, 64):
         mx = (1 << n) - 1
